@@ -336,9 +336,9 @@ func (e *env) genAuth(t *rapid.T, info router.VerifRouteInfo, fc focus) (string,
 		return "admin", ""
 	case 18, 19, 20, 21, 22, 23, 24, 25:
 		return "user", ""
-	case 26, 27:
+	case 26, 27, 28:
 		return "none", ""
-	case 28, 29:
+	case 29:
 		return "revoked", ""
 	case 30:
 		return "basic-admin", ""
